@@ -168,6 +168,7 @@ theorem winv_stepX (w : World) (hw : WInv w) (op : WOpX) : WInv (w.stepX op) := 
   | setRoot k a => exact all_world hw (world_setRootObj_inv hw k a)
   | orientate => exact world_orientate_inv hw
   | notify ev => exact world_notifyDirect_inv hw ev
+  | nullCall k => simp only [World.stepX, World.nullRefused]; cases w.getObs k <;> exact hw
   | graphAssign d hist =>
     have hc := consistent_inv d hist
     exact world_graphAssign_inv hw ⟨hc.views, hc.node_lt, hc.edge_lt, ⟨hc.sorted.nodes, hc.sorted.edges, hc.sorted.rows⟩⟩
